@@ -25,6 +25,11 @@ COMPRESSIONS = {"off": False, "true": True, "stored": zipfile.ZIP_STORED, "defla
 TARGETS = ["path", "stream"]
 
 
+#: a nested value whose inner keys/values look like everything the key and value maps know
+NEST = {"type": "person", "role": "dept", "name": "inner", "data_id": "x", "str": "y", "kind": "k1", "age": 60, "title": "d1",
+        "t": 1, "s": 0, "i": 2, "k": 0}
+
+
 class Obj:
     def __init__(self, name, typ, guid, age=None):
         self.name = name
@@ -245,9 +250,12 @@ def build_source(flavour, f, rng):
         def ser_mixed(node, data):
             ser_cb(node, data)
             data["tag"] = "o" if isinstance(node.data, Obj) else "s"
+            data["nest"] = dict(NEST)  # a structured value: the maps apply to the entry's own keys, never inside a value
             return data
 
         def deser_mixed(parent, data):
+            if data.get("nest") != NEST:
+                raise ValueError(f"structured value came back altered: {data.get('nest')!r}")
             if data["tag"] == "o":  # KeyError if an entry was written without consulting the mapper
                 return Obj(data["name"], data["type"], data["data_id"], data.get("age"))
             return data["str"]
